@@ -126,6 +126,8 @@ def to_case(o):
     if o["k"] == "send":
         return "KSend x%02x %s %s %s %s %s" % (o["typ"], le(o["tag"]), le(o["msize"]), cvals(o["sent"]), segs(bytes.fromhex(o["wire"])),
                                                res(o["res"], o["sent"], o["tag"], o["typ"]))
+    if o["k"] == "conn":
+        return "KConn %s %s %s" % (le(o["msize"]), segs(bytes.fromhex(o["wire"])), res(o["res"]))
     return "KRaw %s %s %s" % (le(o["msize"]), segs(bytes.fromhex(o["wire"])), res(o["res"]))
 
 
@@ -298,12 +300,15 @@ def evaluate(ctx, obs, schema, base="C01_cases"):
 
 
 def run(ctx):
-    rc, out, obs = ctx.gotest("p9", "^TestVerifC01$", ["vh_common_test.go", "c01_codec_test.go"], timeout=900)
+    rc, out, obs = ctx.gotest("p9", "^TestVerifC01$", ["vh_common_test.go", "vhcl_common_test.go", "c01_codec_test.go", "c01_conn_test.go"], timeout=900)
     if rc != 0 or len(obs) < 2:
         ctx.harness_broken("harness TestVerifC01 failed (rc=%d)" % rc, out)
         return
     regobs = [o for o in obs if o["k"] == "registry"]
-    obs = [o for o in obs if o["k"] in ("send", "raw")]
+    for o in obs:
+        if o["k"] == "conn-error":
+            ctx.harness_broken("connection scenario (real Client against real Server) did not run: %s" % o.get("what"), str(o))
+    obs = [o for o in obs if o["k"] in ("send", "raw", "conn")]
     bad = [o for o in obs if o["res"]["r"].startswith("other")]
     if bad:
         ctx.harness_broken("recv returned an error the harness cannot classify: %s" % bad[0]["res"]["r"], str(bad[0])[:500])
@@ -322,6 +327,10 @@ def run(ctx):
         key = "C01:%s:%s" % (o["k"], o.get("typ", o["wire"][8:10]))
         what = ("bytes written by send differ from the 9P2000.L layout of the sent values, or recv did not deliver norm(sent)"
                 if o["k"] == "send" else "recv of a frame laid out per 9P2000.L did not deliver the field values it carries (norm applied)")
+        if o["k"] == "conn":
+            what = "a frame captured on a live Client/Server connection is not the 9P2000.L encoding of a message of its type (or recv does not deliver it)"
+        elif str(o.get("profile", "")).startswith("conn-"):
+            what = "a frame captured on a live Client/Server connection differs from the 9P2000.L encoding of the message that call / backend answer determines"
         ctx.violation(key, what, o if len(str(o)) < 20000 else {k: (v if len(str(v)) < 4000 else str(v)[:4000] + "...") for k, v in o.items()})
     nm = 0
     for i in mm:
